@@ -99,6 +99,29 @@ def paramsdict_routing(group):
     return EqObligation(f"C06/_set_derivatives/ensures.ParamsDict[group={group}]", build, [DK + "_set_derivatives"])
 
 
+def nested_entry_routing(group):
+    """_set_derivatives on a Params whose eq_params has an entry that is itself a tree ({"growth": {"r", "K"}, "c"}):
+    every leaf has its own flag"""
+    def build():
+        F = Opaque("Gn", 5, 1)
+        def fn(th, r, K, cc, mk):
+            def f(th, r, K, cc):
+                p = Params(nn_params=th, eq_params={"growth": {"r": r, "K": K}, "c": cc})
+                dk = Params(nn_params=mk[0], eq_params={"growth": {"r": mk[1], "K": mk[2]}, "c": mk[3]})
+                q = _set_derivatives(p, dk)
+                return F(jnp.concatenate([q.nn_params, jnp.reshape(q.eq_params["growth"]["r"], (1,)), jnp.reshape(q.eq_params["growth"]["K"], (1,)),
+                                          jnp.reshape(q.eq_params["c"], (1,)), jnp.ones((1,))]))[0]
+            return jnp.reshape(jax.grad(f, argnums={"th": 0, "r": 1, "K": 2, "c": 3}[group])(th, r, K, cc), ())
+        def spec(th, r, K, cc, mk, wrong=False):
+            args = [th[0], r[()], K[()], cc[()], c(1)]
+            li = {"th": 0, "r": 1, "K": 2, "c": 3}[group]
+            m = mk[li] if not wrong else mk[(li + 1) % 4]
+            return arr(lambda _: m * P.app("Gn", 0, (li,), args), ())
+        return dict(fn=fn, spec=spec, canary=lambda *x: spec(*x, wrong=True),
+                    inputs=[Inp("th", (1,)), Inp("r", ()), Inp("K", ()), Inp("cc", ()), Inp("mk", (4,), "bool")])
+    return EqObligation(f"C06/_set_derivatives/ensures.Params_with_a_nested_eq_params_entry[group={group}]", build, [DK + "_set_derivatives"])
+
+
 def system_routing(kind, masks, group):
     """per-unknown derivative keys of a system loss: masks[(unknown, term)] -> bool (network parameters of that unknown)"""
     from contracts.c13 import Sys
@@ -146,8 +169,10 @@ def system_routing(kind, masks, group):
                         [mod + ".__post_init__", mod + ".evaluate", DK + "_set_derivatives"])
 
 
-def system_eq_param_routing(kind):
-    """per-unknown keys that select an *equation parameter* for a constraint term, with networks whose output depends on
+def system_eq_param_routing(kind, param_batch=False):
+    """param_batch: the batch also carries per-sample values of another equation parameter ('nu'): the dynamic part still
+    keeps its default keys for the unbatched parameter.
+    per-unknown keys that select an *equation parameter* for a constraint term, with networks whose output depends on
     that parameter: d total / d a is the sum of the selected constraint terms' derivatives only (the dynamic part keeps its
     own, default, keys)"""
     from contracts.c13 import SysODE, SysStatio, SysNonStatio
@@ -165,13 +190,15 @@ def system_eq_param_routing(kind):
         fb = {k_: OpaqueFn(f"eb{k_}", [(dp,)], (1,)) for k_ in uk}
         W = 3.0
         def keys_for(k_):
-            sel = Params(nn_params=False, eq_params={"a": k_ == "u"})        # u's constraint terms select the parameter a only
-            off = Params(nn_params=False, eq_params={"a": False})
+            more = {"nu": False} if param_batch else {}
+            sel = Params(nn_params=False, eq_params={"a": k_ == "u", **more})        # u's constraint terms select the parameter a only
+            off = Params(nn_params=False, eq_params={"a": False, **more})
             if kind == "ODE":
                 return DerivativeKeysODE(dyn_loss=off, initial_condition=sel, observations=off)
             return DerivativeKeysPDENonStatio(dyn_loss=off, boundary_loss=sel, observations=off, norm_loss=off, initial_condition=off)
         def total(a_, th, pts_, t0, u0, bb):
-            pd = ParamsDict(nn_params={k_: nets[k_].nn_params(th[i]) for i, k_ in enumerate(uk)}, eq_params={"a": a_})
+            eqp = {"a": a_, "nu": jnp.ones(())} if param_batch else {"a": a_}
+            pd = ParamsDict(nn_params={k_: nets[k_].nn_params(th[i]) for i, k_ in enumerate(uk)}, eq_params=eqp)
             kw = dict(u_dict={k_: nets[k_].u for k_ in uk}, dynamic_loss_dict=dyn, params_dict=pd,
                       derivative_keys_dict={k_: keys_for(k_) for k_ in uk})
             with jax.ensure_compile_time_eval():
@@ -190,6 +217,8 @@ def system_eq_param_routing(kind):
                 batch = PDEStatioBatch(inside_batch=pts_, border_batch=bb)
             else:
                 batch = PDENonStatioBatch(times_x_inside_batch=pts_, times_x_border_batch=bb)
+            if param_batch:
+                batch = put_at(lambda b: b.param_batch_dict, batch, {"nu": jnp.ones((2, 1))})
             return loss.evaluate(pd, batch)[0]
         def fn(a_, th, pts_, t0, u0, bb):
             return jax.grad(total)(a_, th, pts_, t0, u0, bb)
@@ -200,16 +229,18 @@ def system_eq_param_routing(kind):
                 term = c(W) * (A * n(0, [t0[()]]) - u0[0, 0]) ** 2
             else:
                 term = P.ZERO
+                rows_ = 2 if param_batch else 1
                 for f in range(2):
-                    pt = [bb[0, l, f] for l in range(dp)]
-                    term = term + c(W) * (A * n(0, pt) - P.app(fb["u"].name, 0, (), pt)) ** 2
+                    for rw in range(rows_):
+                        pt = [bb[rw, l, f] for l in range(dp)]
+                        term = term + c(W) * (A * n(0, pt) - P.app(fb["u"].name, 0, (), pt)) ** 2 * c(1) / rows_
             return arr(lambda _: P.diff(term, A) * (2 if wrong else 1), ())
         B_ = 2
         return dict(fn=fn, spec=spec, canary=lambda *z: spec(*z, wrong=True),
                     inputs=[Inp("a", ()), Inp("th", (2, 1)), Inp("pts", (B_,) if kind == "ODE" else (B_, dp)), Inp("t0", ()), Inp("u0", (2, 1)),
-                            Inp("bb", (1, dp, 2))])
+                            Inp("bb", (2 if param_batch else 1, dp, 2))])
     mod = "jinns.loss._LossODE:SystemLossODE" if kind == "ODE" else "jinns.loss._LossPDE:SystemLossPDE"
-    return EqObligation(f"C06/{mod.split(':')[1]}/ensures.per_unknown_routing_to_an_equation_parameter[{kind}]", build,
+    return EqObligation(f"C06/{mod.split(':')[1]}/ensures.per_unknown_routing_to_an_equation_parameter[{kind}{',with_a_parameter_batch' if param_batch else ''}]", build,
                         [mod + ".evaluate", "jinns.loss._loss_utils:constraints_system_loss_apply", DK + "_set_derivatives"])
 
 
@@ -354,6 +385,7 @@ def obligations(tier):
                 obs.append(system_routing(kind, m, g))
     for kind in ("ODE", "statio", "nonstatio"):
         obs.append(system_eq_param_routing(kind))
+        obs.append(system_eq_param_routing(kind, param_batch=True))
     # the keys also route the gradient when the batch carries per-sample parameters (C12 gradient obligations, reported here)
     from contracts import c12
     for kind in ("ODE", "statio", "nonstatio"):
@@ -361,6 +393,8 @@ def obligations(tier):
             o = c12.batched(kind, K, 2, grad_group=g)
             o.name = o.name.replace("C12/", "C06/")
             obs.append(o)
+    for g_ in ("th", "r", "K", "c"):
+        obs.append(nested_entry_routing(g_))
     obs.append(FnObligation("C06/bounded/unselected_parameter_with_singular_sensitivity_gets_exactly_zero", singular_sensitivity,
                             [DK + "_set_derivatives"]))
     obs.append(FnObligation("C06/mask_builders/bounded.exhaustive_key_sets_0..3", mask_builders,
